@@ -62,6 +62,34 @@ theorem triEntry_ok {A B : Store α} (hA : A.WF) (hB : B.WF) {D U L : Array α}
     have h0 : A.ncols - 2 = 0 := by omega
     simp only [ga 0 (by omega), gd 0 (by omega), gb 0 (by omega), prod3_ok, h1, if_false, h0, loopM, hn, Bool.false_eq_true]
 
+/-- the unrepaired text on operands with one inner dimension: the only term is added twice -/
+theorem triEntry_dbl_one {A B : Store α} (hA : A.WF) (hB : B.WF) {D U L : Array α}
+    (h : A.ncols = B.nrows) (hD : A.ncols = D.size) (h1 : A.ncols = 1)
+    {i j : Nat} (hi : i < A.nrows) (hj : j < B.ncols) :
+    triEntry true A D U L B i j =
+      .ok (A.entry i 0 * D.getD 0 Scalar.zero * B.entry 0 j + A.entry i 0 * D.getD 0 Scalar.zero * B.entry 0 j) := by
+  have ga : A.get i 0 = .ok (A.entry i 0) := get_eq_entry hA hi (by omega)
+  have gb : B.get 0 j = .ok (B.entry 0 j) := get_eq_entry hB (by omega) hj
+  have gd : vget D 0 = .ok (D.getD 0 Scalar.zero) := vget_getD (by omega) _
+  have hb1 : ¬ B.nrows > 1 := by omega
+  have hn2 : ¬ A.ncols ≥ 2 := by omega
+  unfold triEntry
+  simp only [h1, ga, gd, gb, prod3_ok, hb1, if_false, loopM, Nat.sub_self, addR_ok, ge_iff_le,
+    show ¬ (2 ≤ 1) by omega, if_true]
+  rfl
+
+theorem multTOrig_one {A B : Store α} (hA : A.WF) (hB : B.WF) (D U L : Array α) (O : Store α)
+    (h : A.ncols = B.nrows) (hD : A.ncols = D.size) (hU : A.ncols = U.size + 1) (hL : A.ncols = L.size + 1)
+    (h1 : A.ncols = 1) :
+    ∃ O', multTOrig A D U L B O = .ok O' ∧
+      O'.Holds A.nrows B.ncols (fun i j =>
+        A.entry i 0 * D.getD 0 Scalar.zero * B.entry 0 j + A.entry i 0 * D.getD 0 Scalar.zero * B.entry 0 j) := by
+  unfold multTOrig multTGen
+  rw [if_neg (by simpa using h), if_neg (by simpa using hD), if_neg (by simpa using hU), if_neg (by simpa using hL)]
+  obtain ⟨O', e, _, hh⟩ := fill_resize_holds O (r := A.nrows) (c := B.ncols) (f := fun i j => triEntry true A D U L B i j)
+    (fun i j hi hj => triEntry_dbl_one hA hB h hD h1 hi hj)
+  exact ⟨O', e, hh⟩
+
 theorem multT_holds {A B : Store α} (hA : A.WF) (hB : B.WF) (D U L : Array α) (O : Store α)
     (h : A.ncols = B.nrows) (hD : A.ncols = D.size) (hU : A.ncols = U.size + 1) (hL : A.ncols = L.size + 1) :
     ∃ O', multT A D U L B O = .ok O' ∧ O'.kind = O.kind ∧
@@ -259,7 +287,7 @@ theorem fillDiag_holds {A : Store α} (hA : A.WF) (x : α) :
 theorem dsum_holds {A B : Store α} (hA : A.WF) (hB : B.WF) (O : Store α) :
     ∃ O', dsum A B O = .ok O' ∧ O'.kind = O.kind ∧
       O'.Holds (A.nrows + B.nrows) (A.ncols + B.ncols) (Spec.dsum A.entry B.entry A.nrows A.ncols B.nrows B.ncols) := by
-  unfold dsum dsumGen
+  unfold dsum
   simp only
   have hd := resize_dims O (A.nrows + B.nrows) (A.ncols + B.ncols)
   rw [← resize_kind O (A.nrows + B.nrows) (A.ncols + B.ncols)] at hd
